@@ -62,6 +62,7 @@ pub fn k_delete(s: Slot, t: u64) -> Slot {
 // verus-ensures: r == sk_cut(t)
 pub fn k_cut(t: u64) -> u64 {
     if (t >> 32) >= 3600 {
+        // verus-proof: assert((t >> 32) >= 3600 ==> t >= 3600u64 << 32) by (bit_vector);
         t - FORGIVE
     } else {
         t & 0xFF_FFFF
